@@ -158,13 +158,14 @@ def property_files(pid):
     """PV/Properties/<pid>.lean plus the optional extension PV/Properties/<pid>x.lean (theorems about the executable MIRRORS of the Go
     algorithms: they import the proofs in PV/Proofs, which in turn import <pid>.lean, so they cannot live in <pid>.lean itself)."""
     out = [pid]
-    if os.path.exists(os.path.join(LEAN, "PV", "Properties", pid + "x.lean")):
-        out.append(pid + "x")
+    for suffix in "xyz":
+        if os.path.exists(os.path.join(LEAN, "PV", "Properties", pid + suffix + ".lean")):
+            out.append(pid + suffix)
     return out
 
 
 def property_theorems(pid):
-    """Names of the obligations of a property = theorems `<pid>_*` in PV/Properties/<pid>.lean and <pid>x.lean."""
+    """Names of the obligations of a property = theorems `<pid>_*` in PV/Properties/<pid>.lean and its extensions <pid>x/y/z.lean."""
     out = []
     for mod in property_files(pid):
         p = os.path.join(LEAN, "PV", "Properties", mod + ".lean")
